@@ -165,6 +165,7 @@ type Exec struct {
 	reassigned    map[types.Object]bool
 	freshPtrVars  map[*types.Var]bool
 	freshStructVars map[*types.Var]bool
+	aliasMapVars  map[*types.Var]bool // local map variables that may alias another map (read out of a map, field, or copied)
 	tparams       map[string]types.Type // spec type names bound to type arguments (generic callees)
 }
 
@@ -176,7 +177,7 @@ func newExec(ld *Loader, cs *Contracts, pkg *packages.Package) *Exec {
 		heapComps: map[string]*Sort{}, structSorts: map[string]*Sort{}, typeTags: map[string]int{}, maxPaths: 20000, assumptions: map[string]bool{},
 		maxSteps: 400000, assertHit: map[int]bool{}, skipHit: map[string]bool{}, loopHit: map[int]bool{}, cloHit: map[int]bool{},
 		freshSliceVars: map[*types.Var]bool{}, escaped: map[*ast.FuncLit]bool{}, uncontracted: map[string]bool{}, pureAxiomDone: map[string]bool{},
-		closureOfVar: map[*types.Var]*ast.FuncLit{}, allLits: map[*ast.FuncLit]bool{}, usedAxioms: map[string]bool{}, intrinsics: map[string]bool{}, cloVerified: map[*ast.FuncLit]bool{}, reassigned: map[types.Object]bool{}, freshPtrVars: map[*types.Var]bool{}, freshStructVars: map[*types.Var]bool{},
+		closureOfVar: map[*types.Var]*ast.FuncLit{}, allLits: map[*ast.FuncLit]bool{}, usedAxioms: map[string]bool{}, intrinsics: map[string]bool{}, cloVerified: map[*ast.FuncLit]bool{}, reassigned: map[types.Object]bool{}, freshPtrVars: map[*types.Var]bool{}, freshStructVars: map[*types.Var]bool{}, aliasMapVars: map[*types.Var]bool{},
 	}
 }
 
